@@ -78,6 +78,7 @@ pub(crate) mod proofs {
             let pool = Pool::new();
             let mut ids = [0u32; P]; let mut i = 0; while i < P { ids[i] = i as u32; i += 1; }
             assert!(free_list_is(&pool, 0, &ids, P as u32),                  "new(): free = [0..P), nothing outstanding");
+            kani::cover!(true, "end of harness reachable (vacuity guard)");
         }
 
         // @props C13 C05 C16 C15
@@ -97,8 +98,10 @@ pub(crate) mod proofs {
                         assert!(id < P as u32,                               "alloc: id within the pool");
                         assert!(slot as *mut u32 == unsafe { base.add(id as usize) }, "alloc: the reference is &pool[id]");
                         // exclusive ownership: `id` is not handed out again until deallocated == it is no longer in the free list
-                        let k: u32 = kani::any(); kani::assume(k >= 1 && k < s.free);
-                        assert!(s.perm[k as usize] != id,                    "alloc: id no longer in the free list (out' = out + {id})");
+                        let k: u32 = kani::any();
+                        if k >= 1 && k < s.free {
+                            assert!(s.perm[k as usize] != id,                    "alloc: id no longer in the free list (out' = out + {id})");
+                        }
                     }
                     None => assert!(false,                                   "alloc: must succeed while a slot is free"),
                 }
@@ -109,6 +112,7 @@ pub(crate) mod proofs {
                 assert!(r.is_none(),                                         "alloc: None iff all P slots are outstanding");
                 assert!(free_list_is(&pool, s.origin, &s.perm, 0),           "alloc (exhausted): state unchanged");
             }
+            kani::cover!(true, "end of harness reachable (vacuity guard)");
         }
 
         // @props C13 C05 C15
@@ -127,6 +131,7 @@ pub(crate) mod proofs {
             let mut expected = s.perm; expected[s.free as usize] = id;
             assert!(free_list_is(&pool, s.origin, &expected, s.free + 1),    "dealloc: free' = free.push(id) -- the slot becomes allocatable again, nothing else changes");
             kani::cover!(s.free == P as u32 - 1, "dealloc refills the pool completely");
+            kani::cover!(true, "end of harness reachable (vacuity guard)");
         }
 
         // @props C13 C08
@@ -138,8 +143,11 @@ pub(crate) mod proofs {
             let r = pool.ref_from_id(id);
             assert!(r as *mut u32 == unsafe { base.add(id as usize) },       "ref_from_id(id) == &pool[id]");
             assert!(pool.id_from_ref(r) == id,                               "id_from_ref(ref_from_id(id)) == id");
-            let id2: u32 = kani::any(); kani::assume(id2 < P as u32 && id2 != id);
-            assert!(pool.ref_from_id(id2) as *mut u32 != r as *mut u32,      "distinct ids map to distinct slots");
+            let id2: u32 = kani::any();
+            if id2 < P as u32 && id2 != id {
+                assert!(pool.ref_from_id(id2) as *mut u32 != r as *mut u32,      "distinct ids map to distinct slots");
+            }
+            kani::cover!(true, "end of harness reachable (vacuity guard)");
         }
     } )* } }
     pool_proofs! {
@@ -179,6 +187,7 @@ pub(crate) mod proofs {
             assert!(free_count(&pool) == s.free,                             "alloc + dealloc: free count restored");
             drop(pool);
             assert!(DROPS.load(SeqCst) == d0 + 1,                            "dropping the allocator never drops pool slots (ManuallyDrop)");
+            kani::cover!(true, "end of harness reachable (vacuity guard)");
         }
     } )* } }
     pool_drop_proofs! {
